@@ -188,7 +188,7 @@ pub fn judge(c: &Case, o: &Result<Obs, String>) -> Option<(String, String, serde
 }
 
 pub fn run(cfg: &Cfg, rep: &mut Report) {
-  let total = cfg.n(80_000, 30_000_000);
+  let total = cfg.n(500_000, 30_000_000);
   let mut rng = Rng::new(cfg.seed ^ 0xC08);
   for i in 0..total {
     let mut r = rng.fork();
